@@ -209,6 +209,8 @@ def run():
             if r.ok:
                 raise Inconclusive("as-coded Blocking model unexpectedly satisfies the properties: the model lost its discriminating power")
     scs = family(quick)
+    for sc in scs:      # scheduling stalls of a loaded machine are recorded and added to every bound
+        sc["steps"] = [{"a": "stallWatch"}] + sc["steps"] + [{"a": "stallWatch", "mode": "off"}]
     trace = ctx.run_scenarios(scs, "c08", par=6)
     verdicts, _ = ctx.validate(trace, "MonC08")
     nv = ctx.judge(scs, trace, verdicts)
